@@ -115,3 +115,19 @@ prop("C05", level="other",
 from . import known  # noqa: E402
 for _p in ("C03", "C04", "C06", "C14"):
     PROPS[_p]["known"].append(known.replay_for(_p))
+
+from . import tierb_c08  # noqa: E402
+
+def _c08_async(scratch, tier, log):
+    obs = tierb_async.run_all(scratch, what=("process",))
+    return [o for o in obs if ("FastFixed" in o.name)]
+_c08_async.__name__ = "tierb_async_C08"
+
+prop("C08", level="other", stages=[tierb_c08.stage, _c08_async],
+     technique="exact polynomial identity (sympy) on the extracted interpolation bodies + Tier B window-choice obligations (Z3)",
+     explanation="interp_septic/quintic/cubic/lin are, as polynomials in x and the samples, exactly the Lagrange interpolants through their 8/6/4/2 nodes "
+                 "(decided for all x and all sample values by polynomial expansion of the extracted bodies); every arm of FastFixedIn/Out hands the function "
+                 "of its degree the W samples starting k before floor(instant) and the fractional part of the instant (Tier B step obligations), and the "
+                 "instants are 1/ratio apart (C06 obligations). The sinusoid error bound is the classical consequence and is not machine-checked.",
+     assumptions=["float literals of the coefficient tables denote the decimals / quotients written in the source (1-ulp rounding of 1/3, 1/6, 1/120, 1/5040 ignored)",
+                  "reproduction 'to rounding': floating-point evaluation error of the polynomial is not bounded here"] + list(tierb_async.ASSUME_TEXT))
